@@ -1775,11 +1775,13 @@ fn print_status(router: &mut Router, metrics: Print) {
 
             let metrics = match metrics {
                 Some(v) => Some(v),
-                None => router.graveyard.retrieve(&id).map(|v| {
+                // only look: the session has to be there when the client comes back
+                None => router.graveyard.peek(&id).map(|v| {
                     (
-                        v.metrics,
+                        v.metrics.clone(),
                         v.session_state
-                            .map(|s| s.tracker)
+                            .as_ref()
+                            .map(|s| s.tracker.clone())
                             .unwrap_or(Tracker::new(id)),
                     )
                 }),
